@@ -71,3 +71,53 @@ def defaults_of(fn: ast.FunctionDef) -> Dict[str, ast.AST]:
     return out
 
 
+
+
+def local_assignments(fn) -> Dict[str, List[ast.AST]]:
+    """local name -> value expressions assigned to it anywhere in fn (tuple targets map every
+    element to the whole right-hand side; augmented assignments and subscript stores count)."""
+    defs: Dict[str, List[ast.AST]] = {}
+    for st in ast.walk(fn):
+        if isinstance(st, ast.Assign):
+            for t in st.targets:
+                for e in (t.elts if isinstance(t, (ast.Tuple, ast.List)) else [t]):
+                    base = e
+                    while isinstance(base, (ast.Subscript, ast.Starred)):
+                        base = base.value
+                    if isinstance(base, ast.Name):
+                        defs.setdefault(base.id, []).append(st.value)
+        elif isinstance(st, ast.AugAssign):
+            base = st.target
+            while isinstance(base, ast.Subscript):
+                base = base.value
+            if isinstance(base, ast.Name):
+                defs.setdefault(base.id, []).append(st.value)
+        elif isinstance(st, (ast.For, ast.comprehension)):
+            for e in ast.walk(st.target):
+                if isinstance(e, ast.Name):
+                    defs.setdefault(e.id, []).append(st.iter)
+        elif isinstance(st, ast.With):
+            for it in st.items:
+                if it.optional_vars is not None and isinstance(it.optional_vars, ast.Name):
+                    defs.setdefault(it.optional_vars.id, []).append(it.context_expr)
+    return defs
+
+
+def backward_slice(expr: ast.AST, defs: Dict[str, List[ast.AST]], _seen=None) -> List[ast.AST]:
+    """expr plus the defining expressions of every local name it (transitively) mentions."""
+    _seen = _seen if _seen is not None else set()
+    out = [expr]
+    for n in ast.walk(expr):
+        if isinstance(n, ast.Name) and n.id in defs and n.id not in _seen:
+            _seen.add(n.id)
+            for v in defs[n.id]:
+                out += backward_slice(v, defs, _seen)
+    return out
+
+
+def slice_mentions(expr, defs, pred) -> bool:
+    return any(pred(n) for e in backward_slice(expr, defs) for n in ast.walk(e))
+
+
+def method_calls(node, attr: str):
+    return [n for n in ast.walk(node) if isinstance(n, ast.Call) and isinstance(n.func, ast.Attribute) and n.func.attr == attr]
